@@ -17,7 +17,8 @@ RULE = ("model graph: every reachable state and every transition (state, thread)
         "replayed; a case is DISTINCT by its canonical form (thread set, schedule), counted with a set (`distinct_cases`); a "
         "case is TRIVIAL when every thread's steps are contiguous in the schedule (the threads ran one after another: no "
         "thread waited or was resumed after another one ran); `distinct_nontrivial` = distinct cases that are not trivial; "
-        "search: exhaustive DFS with state hashing on the real class over the same thread sets (quick: up to 3 readers + 2 "
+        "search: exhaustive DFS with state hashing on the real class over the same thread sets plus reader-only sets with "
+        "nested read holds (n; n,r; n,n; nr,n,r) (quick: up to 3 readers + 2 "
         "writers one round each and 2+1 / 1+2 with two rounds; thorough: 3 readers + 2 writers with 1-2 rounds each).  Budgets "
         "are COUNTS derived from the tier (transitions executed on the real class per thread set: quick 150000, thorough "
         "700000), never wall clock: the explored set is a function of (tree, tier, VERIF_SEED); thread sets whose state "
@@ -29,7 +30,15 @@ ASSUMPTIONS = ["threading.Lock semantics (acquire blocks while held, release by 
                "the thread-level theorems allow a switch at every instruction, which includes these schedules",
                "fairness of threading.Lock is not assumed and starvation-freedom under unfair infinite schedules is not claimed: "
                "'every acquire eventually returns' is proved as deadlock-freedom + termination of every maximal schedule of "
-               "finite programs"]
+               "finite programs",
+               "worker threads are real OS threads, one per logical thread (lib.dsched starts one `_thread` per worker), and "
+               "the module under test sees the real `threading.current_thread` / `get_ident`: code that keys state by "
+               "thread identity behaves as in production; the shim implements `Lock.acquire(blocking=False)` / a timeout "
+               "as 'returns False without waiting when the lock is held at that moment'",
+               "in scope besides the rounds of the property: a reader that takes a second read hold while it has one, in "
+               "thread sets WITHOUT writers (the counting light switch supports it; with a writer queued between the two "
+               "acquires the unchanged class deadlocks by design — writer preference — so that use is outside the "
+               "property); out of scope: a hold acquired in one thread and released from another"]
 
 MUTEXES = ["RQ", "NR", "NW", "RM", "WM"]
 
@@ -52,18 +61,28 @@ class ShimLock:
         self.name = "?"
 
     def acquire(self, blocking=True, timeout=-1):
+        """threading.Lock.acquire: `blocking=False` (or a timeout >= 0, read as "the timeout expires") never waits — it
+        returns False when the lock is held at the moment the thread is scheduled"""
+        if not blocking and timeout != -1:
+            raise ValueError("can't specify a timeout for a non-blocking call")
+        trying = (not blocking) or (timeout is not None and timeout >= 0)
         run = ShimLock.run
         i = run.sched.me() if run is not None and run.sched is not None and not run.direct else None
         if i is None:                       # outside a scheduled run: plain non-blocking lock
             if self.held:
+                if trying:
+                    return False
                 raise WouldBlock(self.name)
             self.held = True
             return True
-        run.sched.yield_point(("a", self))
+        run.sched.yield_point(("t" if trying else "a", self))
+        if self.held and trying:
+            run.ops[i] += 1
+            return False
         if self.held:
             raise HarnessError("worker %d resumed at acquire(%s) while the lock is held" % (i, self.name))
         self.held = True
-        run.inside[i] = "-"
+        run.inside[i] = "R" if run.nested[i] else "-"
         run.ops[i] += 1
         return True
 
@@ -72,7 +91,7 @@ class ShimLock:
         i = run.sched.me() if run is not None and run.sched is not None and not run.direct else None
         if i is not None:
             run.sched.yield_point(("r", self))
-            run.inside[i] = "-"
+            run.inside[i] = "R" if run.nested[i] else "-"
             run.ops[i] += 1
         if not self.held:
             raise RuntimeError("release unlocked lock")
@@ -146,7 +165,7 @@ def _mon_callback(code, offset):
         cur = getattr(obj, attr)
     except AttributeError:
         return None
-    if type(cur) is not int:
+    if type(cur) not in SWITCH_STATE_TYPES:
         return None
     run.sched.yield_point(("c" + kind, obj, attr))
     return None
@@ -171,6 +190,9 @@ def _install_monitoring(mod):
                 mon.set_local_events(TOOL, code, mon.events.INSTRUCTION)
 
 
+SWITCH_STATE_TYPES = (int, bool, set, frozenset, list, tuple, dict)   # what a light switch may keep besides its mutex
+
+
 def _field(obj, cls, name):
     try:
         return getattr(obj, "_%s__%s" % (cls.lstrip("_"), name))
@@ -187,6 +209,7 @@ class RealRun:
         n = len(spec)
         self.fine = fine        # True: the accesses to the counters are yield points too
         self.inside = ["-"] * n
+        self.nested = [0] * n   # read holds a thread keeps while it takes / returns a further one (role "n")
         self.ops = [0] * n
         self.creads = [[] for _ in range(n)]   # counter values read by each thread in its current round
         self.rounds_done = [0] * n
@@ -202,6 +225,7 @@ class RealRun:
             if not isinstance(v, ShimLock):
                 raise HarnessError("%s is not created through threading.Lock()" % k)
             v.name = k
+        self.sw0 = self.counters()     # the switches' state before anybody used the lock
 
     def go(self, chooser):
         """run the workers; `chooser(run, i) -> j | None` is asked at every yield point (see lib.dsched)"""
@@ -226,6 +250,16 @@ class RealRun:
                     lk.reader_acquire()
                     self.inside[i] = "R"
                     lk.reader_release()
+                elif role == "n":
+                    # a reader that takes a second read hold while it has one (legal for the counting light switch as
+                    # long as no writer is around: used only in thread sets without writers)
+                    lk.reader_acquire()
+                    self.inside[i] = "R"
+                    self.nested[i] = 1
+                    lk.reader_acquire()
+                    lk.reader_release()
+                    self.nested[i] = 0
+                    lk.reader_release()
                 else:
                     lk.writer_acquire()
                     self.inside[i] = "W"
@@ -237,8 +271,32 @@ class RealRun:
         return body
 
     # ---- observation -----------------------------------------------------------------------------
+    def canon(self, v):
+        ident = self.sched.ident if self.sched is not None else {}
+        if isinstance(v, bool) or v is None:
+            return repr(v)
+        if isinstance(v, int):
+            return "t%d" % ident[v] if v in ident else str(v)
+        if isinstance(v, (set, frozenset)):
+            return "{" + ",".join(sorted(self.canon(x) for x in v)) + "}"
+        if isinstance(v, (list, tuple)):
+            return "[" + ",".join(self.canon(x) for x in v) + "]"
+        if isinstance(v, dict):
+            return "{" + ",".join(sorted("%s:%s" % (self.canon(k), self.canon(x)) for k, x in v.items())) + "}"
+        return type(v).__name__
+
+    def switch_state(self, sw):
+        """the state a light switch keeps besides its mutex, address- and thread-ident-free: the unchanged class has ONE
+        integer (`__counter`), shown as that integer; anything else (a set of thread identifiers …) is shown canonically,
+        thread identifiers as the worker index"""
+        canon = self.canon
+        items = [(k, v) for k, v in sorted(vars(sw).items()) if not isinstance(v, ShimLock)]
+        if len(items) == 1 and type(items[0][1]) is int:
+            return str(items[0][1])
+        return "<" + " ".join("%s=%s" % (k.split("__")[-1], canon(v)) for k, v in items) + ">"
+
     def counters(self):
-        return _field(self.rs, "_LightSwitch", "counter"), _field(self.ws, "_LightSwitch", "counter")
+        return self.switch_state(self.rs), self.switch_state(self.ws)
 
     def pending(self, i):
         s = self.sched
@@ -247,7 +305,7 @@ class RealRun:
         if s.done[i]:
             return "D"
         p = s.pending[i]
-        if p[0] in ("a", "r"):
+        if p[0] in ("a", "r", "t"):
             return p[0] + p[1].name
         return p[0] + ("rc" if p[1] is self.rs else "wc" if p[1] is self.ws else "?")
 
@@ -255,7 +313,8 @@ class RealRun:
         """thread j is about to perform its pending access: remember a counter value it reads"""
         p = self.sched.pending[j]
         if p is not None and p[0] == "cL":
-            self.creads[j].append(getattr(p[1], p[2], None))
+            v = getattr(p[1], p[2], None)
+            self.creads[j].append(v if type(v) is int else self.canon(v))
 
     def blocked(self, i):
         s = self.sched
@@ -269,7 +328,7 @@ class RealRun:
         n = len(self.spec)
         rc, wc = self.counters()
         ths = " ".join("t%d=%d:%s:%s" % (i, self.rounds_done[i], self.pending(i), self.inside[i]) for i in range(n))
-        return "%s %s rc=%d wc=%d blocked=[%s]" % (
+        return "%s %s rc=%s wc=%s blocked=[%s]" % (
             ths, " ".join("%s=%d" % (k, 1 if self.mtx[k].held else 0) for k in MUTEXES), rc, wc,
             ",".join(str(i) for i in range(n) if self.blocked(i)))
 
@@ -299,8 +358,8 @@ class RealRun:
         """after all threads have finished: everything free again, and usable by a reader and by a writer"""
         rc, wc = self.counters()
         held = [k for k in MUTEXES if self.mtx[k].held]
-        if held or rc != 0 or wc != 0:
-            return "not reusable after all holders released: held=%s rc=%d wc=%d" % (held, rc, wc)
+        if held or (rc, wc) != self.sw0:
+            return "not reusable after all holders released: held=%s rc=%s wc=%s (initially %s %s)" % ((held, rc, wc) + self.sw0)
         self.direct = True
         try:
             lk = self.lock
@@ -442,9 +501,10 @@ def specs(ctx):
 def search_specs(ctx):
     """the search (real class only) also covers larger thread sets in the thorough tier; the largest one exceeds the run
     budget and is explored breadth-first up to it (listed in `search_incomplete`, never a violation)"""
+    nested = [["n"], ["n", "r"], ["n", "n"], ["nr", "n", "r"]]
     if ctx.quick:
-        return specs(ctx)
-    return specs(ctx) + [["rr", "r", "r", "w", "w"], ["r", "r", "r", "ww", "w"], ["rw", "r", "r", "w", "w"],
+        return specs(ctx) + nested
+    return specs(ctx) + nested + [["rr", "r", "r", "w", "w"], ["r", "r", "r", "ww", "w"], ["rw", "r", "r", "w", "w"],
                          ["rr", "rr", "r", "ww", "w"], ["rr", "rr", "rr", "ww", "ww"]]
 
 
